@@ -15,7 +15,7 @@ type c02Scn struct {
 }
 
 func genC02(rt *rapid.T) c02Scn {
-	o := vfGenOpts{smallMTU: false, bigRTOMax: true}
+	o := vfGenOpts{smallMTU: false, bigRTOMax: true, trailingShutdown: true}
 	sc := genTransfer(rt, o, 20, 1200, rapid.SampledFrom([]int{10, 30, 50}).Draw(rt, "intensity"))
 	// heavier disturbances
 	last := vfLastActMs(&sc)
@@ -33,6 +33,14 @@ func genC02(rt *rapid.T) c02Scn {
 		until := rapid.SampledFrom([]int{2000, 6000, 15000}).Draw(rt, "suntil")
 		sc.Faults.Rules = append(sc.Faults.Rules, vfRule{Side: rapid.IntRange(0, 1).Draw(rt, "sside"), Kind: "type", Type: wtSACK, UntilMs: until})
 	case 3, 4: // zero-window episode: the reader pauses, later resumes
+		// (no trailing shutdown here: the burst below is written in several calls over time)
+		for i := 0; i < len(sc.Acts); i++ {
+			if sc.Acts[i].Kind == "shutdown" {
+				sc.Acts = append(sc.Acts[:i], sc.Acts[i+1:]...)
+				i--
+			}
+		}
+		last = vfLastActMs(&sc)
 		side := rapid.IntRange(0, 1).Draw(rt, "zside")
 		p := rapid.IntRange(0, last/2+1).Draw(rt, "zpause")
 		r := p + rapid.SampledFrom([]int{500, 3000, 10000, 40000}).Draw(rt, "zdur")
@@ -126,7 +134,7 @@ func runC02(t *testing.T, x c02Scn, verbose bool) vfCase {
 			defer s.mu.Unlock()
 			ws, rs := s.acceptedWrites(), s.goodReads()
 			for _, k := range vfSortedKeys(ws) {
-				if m := vfCheckExact(k, ws[k], rs[k]); m != "" {
+				if m := vfCheckDelivery(&sc, k, ws[k], rs[k]); m != "" {
 					sig := "delivery-mismatch"
 					if len(rs[k]) < len(ws[k]) {
 						sig = "stalled-not-delivered"
